@@ -65,6 +65,7 @@ func verifStrEq(a, b string) bool
 func verifProgress(measure func() int, fns ...string)
 func verifAllocBound(n int)
 func verifLoopBound(fnSuffix string, iterations int)
+func verifConcurrent(ops ...func())
 func verifJSONParse(b []byte) int
 func verifJSONValid(h int) bool
 func verifJSONHas(h int, path string) bool
